@@ -36,7 +36,12 @@ enum Val {
     SparseVec(u8, Vec<(u8, u32)>),
     Pointer(String),
     Pointers(Vec<String>),
+    /// a bytes value whose log record is tens of KB up to more than 1 MiB (pattern from `fill`,
+    /// length from `BIG_SIZES[class]`): recovery must not treat a long record as garbage
+    Big { fill: u8, class: u8 },
 }
+
+const BIG_SIZES: [usize; 6] = [65_536, 300_000, 1_048_400, 1_048_576, 1_049_000, 1_400_000];
 
 fn val_strategy() -> impl Strategy<Value = Val> {
     let f = prop_oneof![
@@ -49,6 +54,13 @@ fn val_strategy() -> impl Strategy<Value = Val> {
         Just(f64::MIN_POSITIVE.to_bits()),
         any::<u64>(),
     ];
+    prop_oneof![
+        1 => (any::<u8>(), 0u8..6).prop_map(|(fill, class)| Val::Big { fill, class }).boxed(),
+        70 => small_val_strategy(f.boxed()).boxed(),
+    ]
+}
+
+fn small_val_strategy(f: BoxedStrategy<u64>) -> impl Strategy<Value = Val> {
     prop_oneof![
         Just(Val::Null),
         any::<bool>().prop_map(Val::Bool),
@@ -81,6 +93,10 @@ fn to_tensor_value(v: &Val) -> TensorValue {
         },
         Val::Pointer(p) => TensorValue::Pointer(p.clone()),
         Val::Pointers(p) => TensorValue::Pointers(p.clone()),
+        Val::Big { fill, class } => {
+            let n = BIG_SIZES[*class as usize % BIG_SIZES.len()];
+            TensorValue::Scalar(ScalarValue::Bytes((0..n).map(|i| (i as u8).wrapping_mul(31).wrapping_add(*fill)).collect()))
+        },
     }
 }
 
@@ -319,6 +335,9 @@ impl<'a> Driver<'a> {
                 let k = KEYS[*key as usize % KEYS.len()];
                 let _ = self.store.put_durable(k, tensor_of(k, fields, emb));
                 ctx.label(format!("put:{}", k.split(':').next().unwrap_or("plain")));
+                if let Some(Val::Big { class, .. }) = fields.iter().map(|(_, v)| v).find(|v| matches!(v, Val::Big { .. })) {
+                    ctx.label(if BIG_SIZES[*class as usize % BIG_SIZES.len()] >= 1_000_000 { "put of a value around/above 1 MiB" } else { "put of a value of tens of KB" });
+                }
             },
             Op::Delete { key } => {
                 let k = KEYS[*key as usize % KEYS.len()];
